@@ -2,6 +2,8 @@
 import re
 from . import rtcheck
 from .common import ZVH, sh
+from . import gencorr as g
+from . import genclient
 
 CHECKER = "cd /verif/lean && lake build ZeepVerif.Props.C07 && lake env lean ZeepVerif/Audit/C07.lean"
 
@@ -16,6 +18,13 @@ def transmission(c, cases, mine):
     """the transmission half: a violating request must not open a connection (loopback listener, real helper)"""
     rc, out, err = sh([ZVH, "c16", str(c.seed)], timeout=600)
     lines = [l for l in out.splitlines() if l.startswith("SCN violating-request")]
+    # the same through the service methods of a generated client (the emitted method bodies decide what is called)
+    root = g.scratch(f"C07-client-{c.seed}")
+    glines, gproblem = genclient.run(root)
+    g.cleanup(f"C07-client-{c.seed}")
+    lines += [l for l in glines if l.startswith("SCN violating-request")]
+    if gproblem:
+        c.violation({"kind": "oracle", "what": "generated client: " + gproblem})
     bad = [l for l in lines if "connections=0" not in l or "result=restriction" not in l]
     c.cov["transmission_half"] = {"violating_requests_sent_to_a_loopback_listener": len(lines), "connections_opened_or_wrong_error": len(bad)}
     if bad or not lines:
